@@ -184,3 +184,9 @@ _mk("MapFuture", "user fn", False)
 _mk("MapFuture", "fn omitted = identity", False, map_fn_kind="identity")
 _mk("FlatMapFuture", "stage 1", True, flattened=False)
 _mk("FlatMapFuture", "stage 2 (flattened)", True, flattened=True, stage2=True, map_fn_kind="flattened")
+
+
+REPLAYS = [
+    ("C13", "flat_map stage 2 calls neither fn nor error_fn", "replay/c13_flatmap_error_fn_after_flatten.py"),
+    ("C13", "once flattened, error_fn no longer applies", "replay/c13_flatmap_error_fn_after_flatten.py"),
+]
